@@ -1,7 +1,251 @@
-"""C08 Merge conserves both inputs (structural clauses; see DESIGN.md section 3, C08)"""
-from . import genrules
+"""C08 Merge conserves both inputs (structural clauses; DESIGN.md section 3, C08)
+
+R08-eq      generated PartialEq compares every data field (== means 'identical, B's copy may be dropped')
+R08-fields  every field of Module is taken over from the merged-in module by some merge step
+R08-frame   the destination module is only extended: pushes, None/empty fills, name-keyed unions
+R08-move    elements are pushed into the list they came from, and only under that namespace's action table
+R08-ns      action/rename tables are computed per namespace from both sides, and cover all member lists
+R08-unique  fresh names are checked against both modules
+"""
+import re
+from . import mir, sym, refs, mergefacts, genrules, c09
+from .common import Finding
+
+MODULE = "specification::Module"
+NOT_MERGED = {"name": "the destination keeps its own name", "long_identifier": "the destination keeps its own description",
+              "a2lcomment": "layout", "__block_info": "layout"}
+ACCESSORS = re.compile(r".*::(get_mut|as_mut|iter_mut|next|iter|get|as_ref|unwrap|deref|deref_mut|into_iter|index_mut|index|contains|contains_key|any|is_some|is_none|is_empty|len|first|last|objects|compu_tabs|typedefs|eq|ne|clone)$")
+EXTENDERS = re.compile(r"(std::vec::Vec::push|itemlist::ItemList::push)$")
 
 
 def run(chk):
     genrules.r_eq(chk, rule_complete="R08-eq", rule_layout=None)
-    chk.assumptions += ["not decided: the conservation statement itself over all overlap patterns"]
+    prog = mir.prog()
+    mf = mergefacts.MergeFacts(prog)
+    if mf.S is None:
+        chk.add(Finding("R08-fields", "R08-fields::anchor", "merge::merge_modules not found"))
+        return
+    S = mf.S
+    adt = prog.adts.get(MODULE)
+    # ------------------------------------------------------------------ R08-ns (tables)
+    for desc, ev in mf.table_problems:
+        chk.add(Finding("R08-ns", "R08-ns::table::" + desc, "action/rename table computed from lists of different namespaces or sides: " + desc, prog.bodies[ev[3]].where(ev[4])))
+    chk.rule("R08-ns", "calculate_item_actions calls: (destination list, merged-in list) of the same namespace", len(mf.tables) + len(mf.table_problems), floor=9)
+
+    # ------------------------------------------------------------------ effects on the destination
+    dest_fields = {}
+    nframe = 0
+    pushes = []
+    for ev in S.events:
+        if ev[0] == "write":
+            r, pth = refs.term_path(ev[1])
+            if r != ("param", 1) or not pth:
+                continue
+            nframe += 1
+            top = pth.split("/")[0]
+            srcs = {refs.term_path(v) for v in ev[2]}
+            from2 = [pp for (rr, pp) in srcs if rr == ("param", 2)]
+            if from2 and all(pp == pth or pp.startswith(pth) for pp in from2):
+                dest_fields.setdefault(top, []).append(("fill", pth, ev))
+            elif not ev[2]:
+                dest_fields.setdefault(top, []).append(("fill?", pth, ev))
+            else:
+                fn = prog.bodies.get(ev[3])
+                chk.add(Finding("R08-frame", "R08-frame::write::" + pth, "the destination module's %s is overwritten with %s" % (pth, sorted(sym.fmt(v) for v in ev[2])[:3]), fn.where(ev[4]) if fn else ""))
+        elif ev[0] == "call" and ev[2] and ev[7] and ev[7][0].startswith("&mut"):
+            roots = {refs.term_path(t) for t in ev[2][0]}
+            p1 = sorted(pp for (rr, pp) in roots if rr == ("param", 1))
+            if not p1:
+                continue
+            if ev[1].startswith("merge::") or ACCESSORS.match(ev[1]) or ev[1].endswith("::reset_location") or ev[1].endswith("::merge_includes"):
+                continue
+            nframe += 1
+            fn = prog.bodies.get(ev[3])
+            if EXTENDERS.search(ev[1]):
+                for pth in p1:
+                    if pth:
+                        dest_fields.setdefault(pth.split("/")[0], []).append(("push", pth, ev))
+                        pushes.append((pth, ev))
+                continue
+            chk.add(Finding("R08-frame", "R08-frame::call::%s::%s" % (ev[1], ",".join(p1)), "merge applies %s to the destination module's %s: existing content of A may be removed or reordered" % (ev[1], ",".join(p1)), fn.where(ev[4]) if fn else ""))
+    chk.rule("R08-frame", "writes and mutating calls on the destination module limited to pushes and fills", nframe, floor=51)
+
+    # ------------------------------------------------------------------ R08-fields
+    nf = 0
+    if adt is None:
+        chk.add(Finding("R08-fields", "R08-fields::anchor", "struct specification::Module not found"))
+    else:
+        for f in adt["variants"][0]["fields"]:
+            if f["name"] in NOT_MERGED:
+                continue
+            nf += 1
+            key = "Module." + f["name"]
+            got = dest_fields.get(key, [])
+            ok = False
+            for kind, pth, ev in got:
+                vals = ev[2] if kind != "push" else (ev[2][1] if len(ev[2]) > 1 else frozenset())
+                for v in vals:
+                    rr, pp = refs.term_path(v)
+                    if rr == ("param", 2) and pp.split("/")[0] == key:
+                        ok = True
+            if not ok:
+                chk.add(Finding("R08-fields", "R08-fields::" + key, "no merge step takes %s over from the merged-in module: B's %s content is lost" % (key, f["name"].upper()), "a2lfile/src/merge.rs"))
+    chk.rule("R08-fields", "fields of Module that some merge step fills from the merged-in module", nf, floor=26)
+
+    # ------------------------------------------------------------------ R08-frame (fills only when empty) + R08-move
+    A = mf.A
+    nmove = 0
+    nfill = 0
+    for fid in sorted(prog.reachable(["merge::merge_modules"])):
+        if not fid.startswith("merge::"):
+            continue
+        b = prog.bodies[fid]
+        Sf = A.summary(fid)
+        if Sf is None:
+            continue
+        for ev in Sf.events:
+            if ev[0] == "write" and ev[3] == fid:
+                r, pth = refs.term_path(ev[1])
+                if not (isinstance(r, tuple) and r[0] == "param") or not pth:
+                    continue
+                # only destination-rooted writes: decide through the whole-merge facts (param 1 of merge_modules); here: writes whose value comes from the other module parameter
+                vr = {refs.term_path(v)[0] for v in ev[2]}
+                others = {x for x in vr if isinstance(x, tuple) and x[0] == "param" and x != r}
+                if not others or mergefacts.lookups_in(ev[2]):
+                    continue
+                nfill += 1
+                subj_ok = False
+                for (sb, taken) in b.control_deps_closure(ev[5]):
+                    for st in c09.switch_subject(b, Sf, sb):
+                        rr, pp = refs.term_path(st) if not (isinstance(st, tuple) and st[0] == "call") else (None, None)
+                        if isinstance(st, tuple) and st[0] == "call" and re.search(r"is_none|is_some|is_empty", st[1]):
+                            for a in st[2]:
+                                if a is not None:
+                                    ar, ap = refs.term_path(a)
+                                    if ar == r and (ap == pth or pth.startswith(ap)):
+                                        subj_ok = True
+                        elif rr == r and pp and (pp == pth or pth.startswith(pp + "/") or pp.startswith(pth)):
+                            subj_ok = True
+                if not subj_ok:
+                    chk.add(Finding("R08-frame", "R08-frame::fill::%s::%s" % (mir.strip_generics(fid), pth), "%s assigns %s from the other module without first testing that the destination has none: existing content of A would be replaced" % (fid, pth), b.where(ev[4])))
+            if ev[0] == "call" and ev[3] == fid and EXTENDERS.search(ev[1]) and len(ev[2]) >= 2:
+                dst = {refs.term_path(t) for t in ev[2][0]}
+                src = {refs.term_path(t) for t in ev[2][1]}
+                dparams = [(rr, pp) for rr, pp in dst if isinstance(rr, tuple) and rr[0] == "param" and pp]
+                sparams = [(rr, pp) for rr, pp in src if isinstance(rr, tuple) and rr[0] == "param" and pp]
+                if not dparams or not sparams:
+                    continue
+                if all(dr == sr for dr, _ in dparams for sr, _ in sparams):
+                    continue      # pushes within one module (not a transfer)
+                nmove += 1
+                for dr, dp in dparams:
+                    if not any(sp == dp or sp.startswith(dp) for sr, sp in sparams if sr != dr):
+                        chk.add(Finding("R08-move", "R08-move::%s::%s" % (mir.strip_generics(fid), dp), "%s pushes elements of %s into %s: wrong list" % (fid, sorted(sp for _, sp in sparams), dp), b.where(ev[4])))
+                    ns = refs.ns_of_list_path(dp)
+                    if ns in set(mf_tables_local(A, fid).values()) or ns in set(mf.tables.values()):
+                        # the push must be control dependent on a lookup in the action table of this namespace
+                        ok = False
+                        tabs = []
+                        for (sb, taken) in b.control_deps_closure(ev[6]):
+                            for st in c09.switch_subject(b, Sf, sb):
+                                for lk in mergefacts.lookups_in({st}):
+                                    tns, which = local_table_ns(A, fid, lk[1])
+                                    tabs.append((tns, which))
+                                    if tns == ns and which == "#0":
+                                        ok = True
+                        if not ok and ns not in ("function", "group", "user"):
+                            chk.add(Finding("R08-move", "R08-move::action::%s::%s" % (mir.strip_generics(fid), dp), "elements are moved into %s (namespace %s) under the action table of %s: duplicates or losses in that namespace" % (dp, ns, sorted(set(str(t) for t in tabs)) or "no table"), b.where(ev[4])))
+    chk.rule("R08-move", "transfers of elements from the merged-in module: same list, decided by that namespace's action table", nmove, floor=20)
+    chk.rule("R08-frame-fill", "assignments of whole fields from the merged-in module guarded by a test that the destination has none", nfill, floor=8)
+
+    # member-list coverage per namespace
+    ncov = 0
+    T = refs.table()
+    pushed = {pth for pth, ev in pushes}
+    for ns in sorted(set(mf.tables.values())):
+        for lst in T["namespaces"].get(ns, []):
+            ncov += 1
+            if lst.replace("/", "/") not in pushed:
+                chk.add(Finding("R08-ns", "R08-ns::member::" + lst, "the elements of %s (namespace %s) are never moved into the destination although the namespace has an action table" % (lst, ns), "a2lfile/src/merge.rs"))
+    chk.rule("R08-ns-members", "member lists of each merged namespace moved under its table", ncov, floor=18)
+    # renaming of the moved elements themselves: the name of an element of list L is rewritten from the rename table of L's namespace
+    idx = c09.site_index()
+    nren = 0
+    renamed_defs = {}
+    for (path, root, ns, which, kpath, kroot, lk, ev) in mf.rename_writes():
+        site = idx.get(path)
+        if site is None or site[1]["role"] != "def" or which != "#1" or ns is None:
+            continue
+        nren += 1
+        fn = prog.bodies.get(ev[3])
+        if site[1]["ns"] != ns:
+            chk.add(Finding("R08-rename", "R08-rename::%s::%s" % (ns, path), "%s (namespace %s) gets its fresh name from the rename table of namespace %s: a conflicting element keeps its old name and the namespace ends up with duplicate names" % (path, site[1]["ns"], ns), fn.where(ev[4]) if fn else ""))
+        elif kpath == path:
+            renamed_defs.setdefault(path, set()).add(ns)
+    for ns in sorted(set(mf.tables.values())):
+        for lst in T["namespaces"].get(ns, []):
+            defs = [pp for pp in idx if pp.startswith(lst + "/") and pp.count("/") == lst.count("/") + 1 and idx[pp][1]["role"] == "def"]
+            for dp in defs:
+                nren += 1
+                if ns not in renamed_defs.get(dp, ()):
+                    chk.add(Finding("R08-rename", "R08-rename::missing::" + dp, "elements of %s are moved without taking their fresh name from the %s rename table: same-name/different-content conflicts produce duplicate names" % (lst, ns), "a2lfile/src/merge.rs"))
+    chk.rule("R08-rename", "moved elements renamed from their own namespace's rename table", nren, floor=36)
+    # fresh names
+    c09_unique(chk, prog, mf)
+    chk.assumptions += ["not decided: the conservation statement itself over all overlap patterns (runtime)"]
+
+
+_local_tables = {}
+
+
+def mf_tables_local(A, fid):
+    """calculate_item_actions calls visible in function fid: call term -> namespace (in terms of fid's own parameters)"""
+    if fid in _local_tables:
+        return _local_tables[fid]
+    out = {}
+    S = A.summary(fid)
+    for ev in S.events:
+        if ev[0] == "call" and ev[1] == "merge::calculate_item_actions":
+            a0 = [t for t in ev[2][0] if not (isinstance(t, tuple) and t[0] == "var")]
+            a1 = [t for t in ev[2][1] if not (isinstance(t, tuple) and t[0] == "var")]
+            n0 = {mergefacts.ns_of_listterm(t)[0] for t in a0}
+            n1 = {mergefacts.ns_of_listterm(t)[0] for t in a1}
+            key = ("call", "merge::calculate_item_actions", (sorted(a0, key=repr)[0] if a0 else None, sorted(a1, key=repr)[0] if a1 else None))
+            if len(n0) == 1 and n0 == n1:
+                out[key] = list(n0)[0]
+    _local_tables[fid] = out
+    return out
+
+
+def local_table_ns(A, fid, tterm):
+    if isinstance(tterm, tuple) and tterm[0] == "f" and tterm[2] in ("#0", "#1"):
+        return mf_tables_local(A, fid).get(tterm[1]), tterm[2]
+    return None, None
+
+
+def c09_unique(chk, prog, mf):
+    b = prog.bodies.get("merge::make_unique_name")
+    n = 0
+    if b is None:
+        chk.add(Finding("R08-unique", "R08-unique::anchor", "merge::make_unique_name not found"))
+    else:
+        n = 1
+        S2 = sym.Analyzer(prog).summary("merge::make_unique_name")
+        gets = [ev for ev in S2.events if ev[0] == "call" and re.search(r"ItemList::(get|contains_key|index)$", ev[1])]
+        roots = set()
+        for ev in gets:
+            for t in ev[2][0]:
+                if isinstance(t, tuple) and t[0] == "param":
+                    roots.add(t[1])
+        if len(roots) < 2:
+            chk.add(Finding("R08-unique", "R08-unique::lists", "make_unique_name checks a candidate name against %d list parameter(s); a fresh name must be free in both modules" % len(roots), b.where()))
+        S3 = sym.Analyzer(prog, opaque=[r"merge::make_unique_name"]).summary("merge::calculate_item_actions")
+        for ev in S3.events:
+            if ev[0] == "call" and ev[1] == "merge::make_unique_name":
+                n += 1
+                ps = set()
+                for a in ev[2][1:]:
+                    ps |= {x[1] for x in a if isinstance(x, tuple) and x[0] == "param"}
+                if not ({1, 2} <= ps):
+                    chk.add(Finding("R08-unique", "R08-unique::args", "calculate_item_actions does not pass both the destination and the merged-in list to make_unique_name: names are not unique within the namespace afterwards", prog.bodies["merge::calculate_item_actions"].where(ev[4])))
+    chk.rule("R08-unique", "fresh names checked against both lists", n, floor=2)
